@@ -885,6 +885,7 @@ func TestVerifC05(t *testing.T) {
 				lines = append(lines, "c05 bytes")
 			}
 		}
+		implOnly := false
 		lines = append(lines, "c05 trace")
 		mout := model.Ask(lines)
 		var mMarks []string
@@ -925,8 +926,15 @@ func TestVerifC05(t *testing.T) {
 			}
 			res.Count("ref:"+strings.Join(caseLines, ";"), false)
 			if bad != "" {
+				// the model no longer describes this code: keep the disagreement, and still crash
+				// the real code at every point IT reports and judge the outcome by the property
+				// oracle alone (no model comparison for this workload)
 				res.Fail(vFailure{Kind: "disagreement", Case: caseLines, Detail: "crash-free run: " + bad})
-				continue
+				implOnly = true
+				for len(mSteps) < len(ref.marks) {
+					mSteps = append(mSteps, 0)
+				}
+				res.Dist("impl-only-workload")
 			}
 		}
 		res.Dist(fmt.Sprintf("workload-hooks-%03d", len(ref.marks)/25*25))
@@ -1026,6 +1034,27 @@ func TestVerifC05(t *testing.T) {
 					hits := vC05ReadLines(hits2)
 					os.RemoveAll(dir)
 
+					if implOnly {
+						verdict := vC05Oracle(c, ref, crashOp, !between, resume, hung, post)
+						kind := "between-ops"
+						if !between {
+							kind = strings.Fields(c.ops[crashOp])[0]
+						}
+						mu.Lock()
+						res.Count(id, !between)
+						res.Dist("crash-in-" + kind)
+						if verdict != nil {
+							tag := vC05Tag(cr.point, kind, listing, verdict, cr.tear > 0)
+							res.Dist("spec:" + tag)
+							perTag[tag]++
+							if perTag[tag] <= 4 {
+								res.Fail(vFailure{Kind: "spec", Case: replay, Impl: append([]string{"dir " + listing}, resume...),
+									Detail: fmt.Sprintf("crash at %s (hit %d) inside %q: %s", cr.point, cr.n, kind, verdict.detail), Tag: tag})
+							}
+						}
+						mu.Unlock()
+						continue
+					}
 					// ---- model
 					ml := []string{"c05 " + c.begin, fmt.Sprintf("c05 budget %d", cr.step)}
 					for i, op := range c.ops {
